@@ -217,6 +217,6 @@ def run(tier, seed):
 MANIFEST = {
     "engine": "G",
     "technique": "stateless model checking of two real concurrent publishers with split execute/response events: all interleavings within a deviation bound, test-and-set judged at the server from on-disk checkstrings",
-    "text": "Two independent clients overwrite the same mutable file on real storage servers; each remote call is split into server execution and response delivery and all interleavings within the deviation bound are run. The harness compares, at every applied write, the on-disk checkstring with what that writer last observed, checks that refused writers report UncoordinatedWriteError, and that a version stays recoverable when (W+1)k <= N. Also three writers on 3-4 servers and two writers on a 10-server grid at one deviation less, and the two-writer configurations with several events per reactor turn and with thread-pool completions as scheduled events.",
+    "text": "Two independent clients overwrite the same mutable file on real storage servers; each remote call is split into server execution and response delivery and all interleavings within the deviation bound are run. The harness compares, at every applied write, the on-disk checkstring with what that writer last observed, checks that refused writers report UncoordinatedWriteError, and that a version stays recoverable when (W+1)k <= N. Also three writers on 3-4 servers and two writers on a 10-server grid at one deviation less, and the two-writer configurations with several events per reactor turn and with thread-pool completions as scheduled events. Also with one server having lost its shares beforehand, so that both writers look for a new home for the same share numbers (must-not-exist test vectors contested).",
     "note": "Bound d in evidence; 2 writers, <= 4 servers.",
 }
